@@ -48,6 +48,10 @@ def oracle(case, recs, out, stats):
             r = impl.apply(op)
             if op[0] == "eval":
                 rec.top_done(r.startswith("ok"))
+                if r.split()[:2] in (["err", "Assertion"], ["err", "Index"]):
+                    # neither a value nor a FormulaError: one of the library's own consistency assertions about its
+                    # stacks and graphs tripped
+                    out.fail("%s ended in %s out of the library's own bookkeeping" % (" ".join(op), r.split()[1]), hist)
             elif op[0] == "setcached" and r == "ok":
                 cached[int(op[1])] = op[2] == "1"
                 stats["oracle_flag_flips"] += 1
@@ -302,6 +306,41 @@ def scenarios():
     return out
 
 
+def handled_read_cases():
+    """Scenario family "a handled failure leaves no trace": c0 reads a reference by attribute path and FAILS; the catcher c2
+    handles the failure (a default) and then calls an element not computed yet (c1, which reads nothing) / calls nothing /
+    reads a reference of its own / calls c1 BEFORE and after; c3 calls the catcher.  The reads of the failed execution
+    belong to nobody: not to the sibling computed next, not to the catcher.  c0, c1 cached or uncached; then the
+    reference c0 read is changed and everything is asked again (nothing but the catcher's chain may be discarded)."""
+    P0, L = ("p", 0), (lambda i: ("lit", i))
+    t = ("try", ("call", 0, [P0]), "k0", L(-1))
+    after = {
+        "sibling": ("add", t, ("call", 1, [P0])),
+        "nothing": ("add", t, L(5)),
+        "own-read": ("add", t, ("ra", 0)),
+        "sibling-before-and-after": ("add", ("add", ("call", 1, [("add", P0, L(1))]), t), ("call", 1, [P0])),
+        "read-then-sibling": ("add", ("add", ("ra", 3), t), ("call", 1, [P0])),
+    }
+    cases = []
+    for name, body in after.items():
+        for c0c in (True, False):
+            for c1c in (True, False):
+                cells = [
+                    {"id": 0, "nparams": 1, "cached": c0c, "body": ("add", ("add", ("ra", 2), ("ra", 3)), ("raise", 0))},
+                    {"id": 1, "nparams": 1, "cached": c1c, "body": ("mul", P0, L(2))},
+                    {"id": 2, "nparams": 1, "cached": True, "body": body},
+                    {"id": 3, "nparams": 1, "cached": True, "body": ("add", ("call", 2, [P0]), ("call", 1, [P0]))},
+                ]
+                for c in cells:
+                    c["allow_none"] = False
+                ev = [["eval", "2", "1"], ["eval", "3", "1"], ["eval", "1", "1"], ["eval", "3", "2"]]
+                ops = ev + [["setref", "2", "9"]] + ev + [["setref", "3", "8"]] + ev + [["eval", "0", "1"]] + ev[:2]
+                cases.append({"cells": cells, "refs": {0: 1, 1: 2, 2: 3, 3: 4}, "n_rn": 2, "maxdepth": None, "ops": ops,
+                              "label": "handled-read/%s/c0 %s c1 %s" % (name, "cached" if c0c else "uncached",
+                                                                         "cached" if c1c else "uncached")})
+    return cases
+
+
 def visible_name_cases():
     """Scenario family "every way a name can be visible in a space": a MODEL-LEVEL reference (resolved by every space,
     owned by none) read by name and through every attribute path that resolves it (`_space.r`, through the other space,
@@ -351,7 +390,8 @@ def run(ctx, out):
         (4, "ra-other", 0, (False, False, False, True), False), (4, "ra-other", 1, (True, False, False, True), True),
         (4, "rg2", 0, (False, False, True, True), False), (3, "rg1", 1, (False, False, True), False))]
     stats = X.run_family(ctx, out, CFG, oracle, 150, 2500,
-                         structured=scenarios() + scenario_cases() + visible_name_cases() + X.copy_cases() + chains + extra
+                         structured=scenarios() + scenario_cases() + handled_read_cases() + visible_name_cases() + X.copy_cases()
+                         + chains + extra
                          + dagenum.sample_cases(ctx, 4, ctx.n(12, 200)))
     item_space_names(out, stats)
     dag_enumeration(ctx, out, stats)
